@@ -218,14 +218,14 @@ Proof.
   destruct a as [|a0 a']; [apply extends_refl|]. destruct b as [|b0 b']; [apply extends_refl|].
   set (old := path_clean (a0 :: a')). set (new := path_clean (b0 :: b')). clearbody old new.
   destruct (get_root_path (db s)) as [p rt]. destruct rt as [r|]; [|apply extends_refl].
-  destruct (eqb_str r old); [apply extends_refl|].
+  destruct (eqb_str r old || eqb_str (spelling r) (spelling old)); [apply extends_refl|].
   set (s0 := set_db s p). assert (E0 : tp s0 = tp s) by reflexivity.
   pose proof (stat_s_tp s0 old false) as H1. destruct (stat_s s0 old false) as [s1 r1]; cbn in H1.
   assert (forall s2 src, tp s2 = tp s ->
      extends (tp s) (tp (fst (match src with
       | Ok sh =>
-        if eqb_str old new then (s2, OOk) else
-        if (h_tf sh =? TypeDir) && has_prefix (trim_suffix [slash] old ++ [slash]) new then (s2, OInvalid) else
+        if eqb_str old new || eqb_str (spelling old) (spelling new) then (s2, OOk) else
+        if (h_tf sh =? TypeDir) && has_prefix (trim_suffix [slash] (spelling old) ++ [slash]) (spelling new) then (s2, OInvalid) else
         match parent_check s2 new with
         | (s, OOk) =>
           match stat_s s new false with
@@ -242,8 +242,8 @@ Proof.
       | NoRows => (s2, ONotExist)
       | e => (s2, outc_of_res e) end)))) as K.
   { intros s2 src E. destruct src as [sh| | |e]; cbn; try (apply extends_eq; congruence).
-    destruct (eqb_str old new); [apply extends_eq; cbn; congruence|].
-    destruct ((h_tf sh =? TypeDir) && has_prefix (trim_suffix [slash] old ++ [slash]) new); [apply extends_eq; cbn; congruence|].
+    destruct (eqb_str old new || eqb_str (spelling old) (spelling new)); [apply extends_eq; cbn; congruence|].
+    destruct ((h_tf sh =? TypeDir) && has_prefix (trim_suffix [slash] (spelling old) ++ [slash]) (spelling new)); [apply extends_eq; cbn; congruence|].
     pose proof (parent_check_tp s2 new) as H2. destruct (parent_check s2 new) as [s3 o3]; cbn in H2.
     destruct o3; cbn; try (apply extends_eq; congruence).
     pose proof (stat_s_tp s3 new false) as H3. destruct (stat_s s3 new false) as [s4 r4]; cbn in H3.
